@@ -563,5 +563,56 @@ def inline_new_helpers(trees: Dict[str, ast.Module], baseline: Optional[Set[str]
             n += inl.inline_in_function(node, mname, cname, qual)
         if n == 0:
             break
+    touched = {q for q, _h in inl.log}
+    for mname, cname, node, qual in funcs:
+        if qual in touched:
+            renumber(node)
     skipped = inl.skipped + [("-", h.qual, h.reason) for h in helpers.values() if h.reason]
     return inl.log, skipped
+
+
+def renumber(fn: ast.FunctionDef):
+    """After inlining, statements carry the line numbers of where they were written.  Rules order statements by line:
+    give every statement of the function a synthetic, strictly increasing line (document order) and keep the source
+    line in `_src_lineno` for reports."""
+    counter = [getattr(fn, "lineno", 1)]
+
+    def visit_stmt(st: ast.stmt):
+        counter[0] += 1
+        mine = counter[0]
+        for n in ast.walk(st):
+            if isinstance(n, ast.stmt) and n is not st:
+                continue
+        # own expressions (header) get the statement's number
+        def mark(n, num):
+            if hasattr(n, "lineno"):
+                if not hasattr(n, "_src_lineno"):
+                    n._src_lineno = n.lineno
+                n.lineno = num
+                if hasattr(n, "end_lineno"):
+                    n.end_lineno = num
+        mark(st, mine)
+        for fld, val in ast.iter_fields(st):
+            if isinstance(val, list) and val and isinstance(val[0], ast.stmt):
+                continue
+            if isinstance(val, list) and val and isinstance(val[0], ast.excepthandler):
+                continue
+            vals = val if isinstance(val, list) else [val]
+            for v in vals:
+                if isinstance(v, ast.AST):
+                    for n in ast.walk(v):
+                        mark(n, mine)
+        for fld in ("body", "orelse", "finalbody"):
+            blk = getattr(st, fld, None)
+            if isinstance(blk, list) and blk and isinstance(blk[0], ast.stmt):
+                for b in blk:
+                    visit_stmt(b)
+        for hd in getattr(st, "handlers", []) or []:
+            counter[0] += 1
+            mark(hd, counter[0])
+            for b in hd.body:
+                visit_stmt(b)
+        st.end_lineno = counter[0]
+    for b in fn.body:
+        visit_stmt(b)
+    fn.end_lineno = counter[0]
